@@ -3,3 +3,5 @@ import TIV.Common.Base64Proofs
 import TIV.C01.Props
 import TIV.C02.Props
 import TIV.C03.Props
+import TIV.C12.Props
+import TIV.C13.Props
